@@ -397,21 +397,35 @@ let run_opt k c impl =
      user_wins k c "A" da; ranges k c "A" da;
      let cmp_fields what other keys =
        let fo = fields other in
-       if fget fo "st" <> "0" then pr "FAIL %d %s st=%s\n" k (if what = "dup-loss" then "dup-failed" else what) (fget fo "st")
-       else begin
+       if fget fo "st" <> "0" then begin
+         (* init(save(A)) may legitimately fail with ARES_ENOSERVER when the legacy struct cannot
+            carry A's servers and ARES_FLAG_NO_DFLT_SVR forbids the default *)
+         if not (what = "save-init-loss" && fget fo "st" = "26" && not (List.mem "servers" keys)) then
+           pr "FAIL %d %s st=%s\n" k (if what = "dup-loss" then "dup-failed" else what) (fget fo "st")
+       end else begin
          let norm key v =
            (* without expressible servers the legacy struct may drop ARES_OPT_SERVERS *)
            if key = "mask" && not (List.mem "servers" keys) then
              (try Printf.sprintf "%x" ((int_of_string ("0x" ^ v)) land (lnot 0x40)) with _ -> v)
            else v in
          let bad = List.filter (fun key -> norm key (fget fa key) <> norm key (fget fo key)) keys in
-         if bad <> [] then pr "FAIL %d %s %s\n" k what (String.concat " " (List.map (fun key -> key ^ ":" ^ fget fa key ^ "->" ^ fget fo key) bad))
+         let show key =
+           if key = "mask" then begin
+             let a = (try int_of_string ("0x" ^ fget fa key) with _ -> 0) and b = (try int_of_string ("0x" ^ fget fo key) with _ -> 0) in
+             let bits x = String.concat "+" (List.filter_map (fun i -> if x land (1 lsl i) <> 0 then Some (string_of_int i) else None) (List.init 31 (fun i -> i))) in
+             let ign = if List.mem "servers" keys then 0 else 0x40 in
+             Printf.sprintf "mask:lost=%s,gained=%s" (bits ((a land (lnot b)) land (lnot ign))) (bits ((b land (lnot a)) land (lnot ign)))
+           end else key ^ ":" ^ fget fa key ^ "->" ^ fget fo key in
+         if bad <> [] then pr "FAIL %d %s %s\n" k what (String.concat " " (List.map show bad))
        end in
      let base = ["mask"; "flags"; "timeout"; "tries"; "ndots"; "maxtimeout"; "rotate"; "udp"; "tcp"; "sndbuf"; "rcvbuf";
                  "ednspsz"; "udpmaxq"; "qcache"; "retry"; "sscb"; "lookups"; "domains"; "sortlist"] in
      (* save -> init: servers only when the legacy struct can express them *)
      let srv = fget fa "servers" in
-     if srv <> "." then begin
+     if srv = "(null)" then
+       (* ares_get_servers_csv() returned NULL for a channel that has servers *)
+       pr "FAIL %d csv-unrenderable dup-st=%s\n" k (match impl_line impl k "C" with Some dc -> fget (fields dc) "st" | None -> "?")
+     else if srv <> "." then begin
      let effp f = let v = fget fa f in if v = "0" then "53" else v in
      let expressible = not (contains "[" srv) && not (contains "dns:" srv) && effp "udp" = effp "tcp" &&
                        List.for_all (fun e -> match String.rindex_opt e ':' with
